@@ -212,4 +212,135 @@ theorem PInv.cmd_waitProc {w : World} (hp : PInv ex fr w) {p q : Pid} (hfr : fr 
       · exact h'
     · exact hh
 
+
+/-! ### wait_event -/
+
+/-- the world in which `p` is suspended in `wait_event h` -/
+def waitEventWorld (w : World) (p : Pid) (h : Nat) : World :=
+  (block (addAwait { w with evWaiters := (h, p :: (w.evWaiters.lookup h).getD []) :: w.evWaiters.filter (·.1 ≠ h) } p (.event h))
+    p (.waitEvent h)).1
+
+theorem waitEventWorld_proc (w : World) (p : Pid) (h : Nat) (x : Pid) (hp : p < w.procs.size) :
+    ((waitEventWorld w p h).proc x).awaits = (if x = p then .event h :: (w.proc x).awaits else (w.proc x).awaits) ∧
+    ((waitEventWorld w p h).proc x).waiters = (w.proc x).waiters ∧
+    ((waitEventWorld w p h).proc x).blocked = (if x = p then some (.waitEvent h) else (w.proc x).blocked) ∧
+    ((waitEventWorld w p h).proc x).status = (w.proc x).status := by
+  unfold waitEventWorld block addAwait
+  simp only [modProc_proc, modProc_procs_size, hp, and_true]
+  have hpr : ∀ y, World.proc { w with evWaiters := (h, p :: (w.evWaiters.lookup h).getD []) :: w.evWaiters.filter (·.1 ≠ h) } y = w.proc y :=
+    fun _ => rfl
+  by_cases h1 : x = p <;> simp [h1]
+  all_goals (first | rfl | exact ⟨rfl, rfl⟩ | exact ⟨rfl, rfl, rfl⟩ | exact ⟨rfl, rfl, rfl, rfl⟩)
+
+theorem waitEventWorld_frame (w : World) (p : Pid) (h : Nat) :
+    (waitEventWorld w p h).ev = w.ev ∧
+    (waitEventWorld w p h).evWaiters = (h, p :: evWaitersOf w h) :: w.evWaiters.filter (·.1 ≠ h) := ⟨rfl, rfl⟩
+
+theorem waitEventWorld_waitersOf (w : World) (p : Pid) (h h' : Nat) :
+    evWaitersOf (waitEventWorld w p h) h' = if h' = h then p :: evWaitersOf w h else evWaitersOf w h' := by
+  unfold evWaitersOf
+  rw [(waitEventWorld_frame w p h).2, List.lookup_cons]
+  by_cases hh : h' = h
+  · subst hh; simp [evWaitersOf]
+  · have : (h' == h) = false := by simpa using hh
+    rw [this, lookup_filter_ne _ _ _ hh]; simp [hh]
+
+/-- `wait_event h` on a scheduled event by a running process that is registered nowhere -/
+theorem PInv.cmd_waitEvent {w : World} (hp : PInv ex fr w) {p : Pid} {h : Nat} (hfr : fr p = none)
+    (hr : (w.proc p).status = .running) (hxp : ¬ ex p) :
+    PInv ex (setFrame fr p (some (.waitEvent h))) (waitEventWorld w p h) := by
+  have hpl := lt_of_running hr
+  have hnil := hp.nil_of_fr_none hfr
+  have hf := fun x => waitEventWorld_proc w p h x hpl
+  obtain ⟨hev, hew⟩ := waitEventWorld_frame w p h
+  have hpa : ∀ x, procAw (waitEventWorld w p h) x = procAw w x := by
+    intro x; unfold procAw; rw [(hf x).1]
+    split
+    · simp [List.filter_cons, isProcA]
+    · rfl
+  have hea : ∀ x, evAw (waitEventWorld w p h) x = if x = p then [.event h] else evAw w x := by
+    intro x; unfold evAw; rw [(hf x).1]
+    split
+    · rename_i hx; subst hx
+      have := hnil.2; unfold evAw at this
+      simp [List.filter_cons, isEventA, this]
+    · rfl
+  have hsub : ∀ x a, a ∈ (w.proc x).awaits → a ∈ ((waitEventWorld w p h).proc x).awaits := by
+    intro x a ha; rw [(hf x).1]; split
+    · exact List.mem_cons_of_mem _ ha
+    · exact ha
+  have hnoe : ∀ a, Await.event a ∉ (w.proc p).awaits := by
+    intro a ha; rw [mem_awaits_event, hnil.2] at ha; cases ha
+  have hpnot : p ∉ evWaitersOf w h := by
+    intro hm
+    obtain ⟨l, hl, hpl'⟩ := evWaitersOf_mem hm
+    exact hnoe h (hp.e1 h l p hl hpl' hxp)
+  refine { ei := by rw [hev]; exact hp.ei, ap := ?_, ae := ?_, ar := ?_, fb := ?_, w1 := ?_, wn := ?_, e1 := ?_, en := ?_,
+           op := ?_, oe := ?_, oh := ?_, up := by rw [hev]; exact hp.up, ue := by rw [hev]; exact hp.ue }
+  · intro x; rw [hpa]
+    by_cases hx : x = p
+    · subst hx; exact Or.inl hnil.1
+    · rw [setFrame_ne _ _ hx]; exact hp.ap x
+  · intro x; rw [hea]
+    by_cases hx : x = p
+    · subst hx; right; exact ⟨h, setFrame_self _ _ _, by simp⟩
+    · rw [if_neg hx, setFrame_ne _ _ hx]; exact hp.ae x
+  · intro x hx
+    rw [(hf x).2.2.2] at hx
+    have hxp' : x ≠ p := fun h' => hx (h' ▸ hr)
+    rw [hpa, hea, if_neg hxp']; exact hp.ar x hx
+  · intro x hxx hx
+    by_cases hxp' : x = p
+    · subst hxp'; rw [(hf x).2.2.1, if_pos rfl, setFrame_self] at hx; exact absurd rfl hx
+    · rw [(hf x).2.2.1, if_neg hxp', setFrame_ne _ _ hxp'] at hx
+      rw [hpa, hea, if_neg hxp']; exact hp.fb x hxx hx
+  · intro x y hy hxy
+    rw [(hf x).2.1] at hy
+    exact hsub y _ (hp.w1 x y hy hxy)
+  · intro x; rw [(hf x).2.1]; exact hp.wn x
+  · intro h' l y hm hy hxy
+    rw [hew] at hm
+    rcases List.mem_cons.1 hm with heq | hm
+    · cases heq
+      rcases List.mem_cons.1 hy with rfl | hy
+      · rw [(hf y).1, if_pos rfl]; exact List.mem_cons_self
+      · obtain ⟨l', hl', hyl'⟩ := evWaitersOf_mem hy
+        exact hsub y _ (hp.e1 h l' y hl' hyl' hxy)
+    · exact hsub y _ (hp.e1 h' l y (List.mem_filter.1 hm).1 hy hxy)
+  · rw [hew]
+    constructor
+    · simp only [List.map_cons, List.nodup_cons]
+      refine ⟨?_, List.Nodup.sublist ((List.filter_sublist).map _) hp.en.1⟩
+      intro hm
+      obtain ⟨x, hx, hxk⟩ := List.mem_map.1 hm
+      have := (List.mem_filter.1 hx).2
+      simp only [ne_eq, decide_eq_true_eq] at this
+      exact this hxk
+    · intro h' l hm
+      rcases List.mem_cons.1 hm with heq | hm
+      · cases heq
+        exact List.nodup_cons.2 ⟨hpnot, hp.evWaitersOf_nodup h⟩
+      · exact hp.en.2 h' l (List.mem_filter.1 hm).1
+  · intro e he ha x hb hx
+    rw [hev] at he
+    obtain ⟨q', h1, h2⟩ := hp.op e he ha x hb hx
+    exact ⟨q', hsub x _ h1, by rw [(hf q').2.1]; exact h2⟩
+  · intro e he ha x hb hx
+    rw [hev] at he
+    obtain ⟨h', h1, h2⟩ := hp.oe e he ha x hb hx
+    have hxp' : x ≠ p := fun hh => hnoe h' (hh ▸ h1)
+    refine ⟨h', hsub x _ h1, ?_⟩
+    rw [waitEventWorld_waitersOf]; split
+    · rename_i hh; subst hh
+      intro hm; rcases List.mem_cons.1 hm with hm | hm
+      · exact hxp' hm
+      · exact h2 hm
+    · exact h2
+  · intro e he ha x hb hx h' hh'
+    rw [hev] at he ⊢
+    obtain ⟨h'', h1, _⟩ := hp.oe e he ha x hb hx
+    have hxp' : x ≠ p := fun hh => hnoe h'' (hh ▸ h1)
+    rw [(hf x).1, if_neg hxp'] at hh'
+    exact hp.oh e he ha x hb hx h' hh'
+
 end CimbaModel.Sim.S3
